@@ -22,9 +22,10 @@ func pick(c Chooser, weights ...int) int {
 
 // GenOpts bounds the value generator.
 type GenOpts struct {
-	MaxBytes  int  // soft budget for the encoded size of one value
-	BigString bool // allow strings beyond the reader's buffer size
-	MaxDepth  int  // maximum container nesting of ordinary values
+	MaxBytes   int  // soft budget for the encoded size of one value
+	BigString  bool // allow strings beyond the reader's buffer size
+	HugeString bool // allow (rarely) strings of 1..8 MiB
+	MaxDepth   int  // maximum container nesting of ordinary values
 }
 
 // boundary-biased 64-bit patterns
@@ -86,6 +87,10 @@ func genStringLen(c Chooser, o *GenOpts) int {
 		return c.Choose(200)
 	default:
 		if o.BigString {
+			if o.HugeString && c.Choose(40) == 0 {
+				// exact binary megabytes and their neighbours (chunked skipping, size classes)
+				return []int{1 << 20, 4 << 20, 4<<20 - 1, 4<<20 + 1, 8 << 20}[c.Choose(5)]
+			}
 			return []int{20000, 65535, 65536, 70000}[c.Choose(4)]
 		}
 		return c.Choose(100)
